@@ -49,6 +49,10 @@ def generate(seed, run, tier):
             cfg['spec'] = arch.gen_supernet(ra, max_branches=8)
     else:
         cfg = sched.gen_cfg(sw, ra, methods=('mps',), weights=(1,))
+        if sw.chance(0.25) and 'exclude_names' not in cfg['ctor'] and 'qinfo' not in cfg['ctor']:
+            # wider layers for this property: per-channel coefficient matrices up to 8 x 16
+            from sim import arch
+            cfg['spec'] = arch.gen_mps(ra, max_c=16)
     enabled = {k: (w if sw.chance(0.85) else 0) for k, w in BASE_WEIGHTS.items()}
     enabled['forward_only'] = BASE_WEIGHTS['forward_only']
     enabled['perturb_arch'] = BASE_WEIGHTS['perturb_arch']
